@@ -85,9 +85,22 @@ def hexrgb(h):
     return tuple(int(h[i:i + 2], 16) for i in (0, 2, 4)) if h else None
 
 
+def token_table():
+    """The package's own syntax-token -> pygments-token table (the meaning of a token's style).  Found by
+    shape, not by name; None if the package no longer has such a table."""
+    import prettyprinter.color as color
+    from prettyprinter.syntax import Token
+    t = getattr(color, '_SYNTAX_TOKEN_TO_PYGMENTS_TOKEN', None)
+    if isinstance(t, dict):
+        return t
+    for v in vars(color).values():
+        if isinstance(v, dict) and v and all(isinstance(k, Token) for k in v):
+            return v
+    return None
+
+
 def style_state(style, tok):
-    from prettyprinter.color import _SYNTAX_TOKEN_TO_PYGMENTS_TOKEN
-    a = style.style_for_token(_SYNTAX_TOKEN_TO_PYGMENTS_TOKEN[tok])
+    a = style.style_for_token(token_table()[tok])
     return (hexrgb(a['color']), hexrgb(a['bgcolor']), bool(a['bold']), bool(a['italic']), bool(a['underline']))
 
 
@@ -294,10 +307,10 @@ def run(tier, seed):
     fixtures.register()
     res = core.Result(PROPERTY, LEVEL, tier, seed)
     from prettyprinter.syntax import Token
-    from prettyprinter.color import _SYNTAX_TOKEN_TO_PYGMENTS_TOKEN
+    table = token_table()
     for tok in Token:
         res.agg.n += 1
-        if tok not in _SYNTAX_TOKEN_TO_PYGMENTS_TOKEN:
+        if table is not None and tok not in table:
             res.agg.violation('token-without-mapping', {'token': tok.name})
     # the style names documented for cpprint(style=...) give the same bytes as the style classes
     from prettyprinter import cpprint
